@@ -90,7 +90,7 @@ func init() {
 				return None, nil
 			}
 		}
-		return nil, ExceptionNewf(KeyError, "%v", args[0])
+		return nil, ExceptionNewf(KeyError, "%s", keyMessage(args[0]))
 	}, 0, "gets(key, default) -> If there is a val corresponding to key, return val, otherwise default")
 }
 
@@ -225,6 +225,18 @@ func (d StringDict) M__iter__() (Object, error) {
 	return NewIterator(o), nil
 }
 
+// Returns key as the message of a KeyError shows it
+//
+// The key must not be given to fmt, which would write the Go
+// representation of it and never end for a dict which contains itself
+func keyMessage(key Object) string {
+	s, err := StrAsString(key)
+	if err != nil {
+		return "<" + key.Type().Name + " object>"
+	}
+	return s
+}
+
 func (d StringDict) M__getitem__(key Object) (Object, error) {
 	str, ok := key.(String)
 	if ok {
@@ -233,17 +245,17 @@ func (d StringDict) M__getitem__(key Object) (Object, error) {
 			return res, nil
 		}
 	}
-	return nil, ExceptionNewf(KeyError, "%v", key)
+	return nil, ExceptionNewf(KeyError, "%s", keyMessage(key))
 }
 
 func (d StringDict) M__delitem__(key Object) (Object, error) {
 	str, ok := key.(String)
 	if !ok {
-		return nil, ExceptionNewf(KeyError, "%v", key)
+		return nil, ExceptionNewf(KeyError, "%s", keyMessage(key))
 	}
 	_, ok = d[string(str)]
 	if !ok {
-		return nil, ExceptionNewf(KeyError, "%v", key)
+		return nil, ExceptionNewf(KeyError, "%s", keyMessage(key))
 	}
 	delete(d, string(str))
 	return None, nil
@@ -252,7 +264,7 @@ func (d StringDict) M__delitem__(key Object) (Object, error) {
 func (d StringDict) M__setitem__(key, value Object) (Object, error) {
 	str, ok := key.(String)
 	if !ok {
-		return nil, ExceptionNewf(KeyError, "FIXME can only have string keys!: %v", key)
+		return nil, ExceptionNewf(KeyError, "FIXME can only have string keys!: %s", keyMessage(key))
 	}
 	d[string(str)] = value
 	return None, nil
@@ -299,7 +311,7 @@ func (a StringDict) M__ne__(other Object) (Object, error) {
 func (a StringDict) M__contains__(other Object) (Object, error) {
 	key, ok := other.(String)
 	if !ok {
-		return nil, ExceptionNewf(KeyError, "FIXME can only have string keys!: %v", key)
+		return nil, ExceptionNewf(KeyError, "FIXME can only have string keys!: %s", keyMessage(other))
 	}
 
 	if _, ok := a[string(key)]; ok {
